@@ -140,3 +140,26 @@ Proof.
   rewrite Forall_forall in F. intros Hin. apply in_map_iff in Hin. destruct Hin as [b [E Hb]].
   specialize (F b Hb). lia.
 Qed.
+
+(** ** nullability as printed *)
+Lemma prefix_append p x : String.prefix p (p +++ x) = true.
+Proof.
+  induction p as [|a p IH]; simpl; [destruct x; reflexivity|].
+  destruct (Ascii.ascii_dec a a); [exact IH|congruence].
+Qed.
+Theorem py_nullable_iff inner arr nn :
+  has_prefix inner "Optional[" = false -> py_says_nullable (py_type_string inner arr nn) = negb nn.
+Proof.
+  intros H. unfold py_says_nullable, py_type_string. destruct nn; cbn [negb].
+  - destruct arr; [reflexivity|exact H].
+  - unfold has_prefix. apply prefix_append.
+Qed.
+
+(** a nullable array: Optional in Python, not nullable in Kotlin (the finding
+    nullable_array_optional_in_python_only) *)
+Theorem nullable_array_disagreement :
+  kt_says_nullable (kt_type_string "String" true false) = false /\
+  py_says_nullable (py_type_string "str" true false) = true /\
+  kt_says_nullable (kt_type_string "String" false false) = true /\
+  py_says_nullable (py_type_string "str" false false) = true.
+Proof. vm_compute. repeat split; reflexivity. Qed.
